@@ -36,6 +36,10 @@ def gen(tier, idx):
             ops.append([op, [[r.randrange(5), r.choice([0, 1, 2, r.randrange(50)])] for _ in range(r.choice([0, 2]))]])
         else:
             ops.append([op, k, v])
+    if idx % 3 == 0:
+        # stratum: a value replaced by one that is == to it but of another type (0 -> 0.0), dumped both times: the archive holds what was dumped last
+        k0 = r.randrange(5); at = r.randrange(len(ops) + 1)
+        ops[at:at] = [['put', k0, 1], ['dumpAll', 0, 0], ['put', k0, 3], [['dumpAll', 0, 0], ['dump', [k0]]][(idx // 3) % 2]]
     pre_mem = [[r.randrange(5), r.choice([0, 1, r.randrange(50)])] for _ in range(r.choice([0, 2]))]
     pre_arch = [[r.randrange(5), r.choice([0, 2, r.randrange(50)])] for _ in range(r.choice([0, 3]))]
     return dict(kind=kind, pre_mem=pre_mem, pre_arch=pre_arch), ops
